@@ -103,6 +103,8 @@ def extract_witness(m, inputs, entry_heap):
             out[name] = [_val_scalar(m, x) for x in v]
         elif k in ("func", "obj", "opaque"):
             out[name] = {"kind": k}
+        elif k == "objattrs":
+            out[name] = {"@attrs": {an: _val_scalar(m, av) for an, av in v.attrs.items() if an != "__dict__"}}
         elif k == "const":
             out[name] = v
         elif k == "dict":
